@@ -34,7 +34,9 @@ RULE = ("each run draws a pipeline of 1-6 streaming elements (probe callables, V
         " (with or without a length) or a one-shot iterator as first element of a Source, or is"
         " given to Sequence.run as an iterable with a length; Filters whose Selector takes"
         " exceptions of its predicate for False; Splits with copy_buf off; deep copies of input"
-        " values are counted like the originals (one copy of a block at a time).")
+        " values are counted like the originals (one copy of a block at a time)."
+        " Also: inputs and element boundaries that answer __length_hint__, bufsize 10,"
+        " lena.flow.Chain over a one-shot iterator, long skips in front of a negative stop.")
 REAL = ["lena.core.Sequence", "lena.core.Source", "lena.core.Split", "lena.core.Run (adapters)",
         "lena.flow.Filter", "lena.flow.Selector", "lena.flow.Slice", "lena.flow.Count",
         "lena.flow.RunIf", "lena.flow.Print", "lena.context.Context", "lena.context.UpdateContext",
@@ -182,6 +184,9 @@ def gen_slice(tape, infinite):
         return (a, None, s)
     if pat == "neg-stop":
         return (-m,)
+    if pat in ("start-neg-stop", "start-neg-stop-step") and tape.chance(1, 3, "long-skip"):
+        # many values are skipped first: none of them may be kept while the slice runs
+        a = 10 + tape.draw(8, "slice-a-long")
     if pat == "start-neg-stop":
         return (a, -m)
     if pat == "start-neg-stop-step":
